@@ -255,10 +255,16 @@ fn check_history_inner(model: &Model, h: usize, cfg: &Cfg, now: u64, txn: &Trans
         None => {
             if let Err(why) = is_subsequence_containing(&got, &exp) {
                 let mut class = class_of(&got, &exp_entries);
-                if q.ts_range.is_some() && got == filter_before_barrier(model, h, q) {
+                if q.ts_range.is_some() {
                     // known finding F10: the timestamp filter runs before the barrier logic, so a barrier outside the
-                    // range does not erase the versions below it
-                    class = "history-tsrange-excludes-barrier".into();
+                    // range does not erase the versions below it. What is shown is then the timestamp-filtered list
+                    // without barriers - or a part of it, because compaction may already have removed some of the
+                    // erased versions physically - and still contains everything the model expects.
+                    let alt = filter_before_barrier(model, h, q);
+                    let alt_opt: Vec<(HEntry, bool)> = alt.iter().map(|e| (e.clone(), exp_entries.contains(e))).collect();
+                    if alt != exp_entries && is_subsequence_containing(&got, &alt_opt).is_ok() {
+                        class = "history-tsrange-excludes-barrier".into();
+                    }
                 }
                 return Err((class, format!("{ctx}: {why}; got {} expected {}", fmt_entries(&got), fmt_entries(&exp_entries))));
             }
